@@ -315,3 +315,44 @@ class Ctx:
         self.evaluations += 1
         if nontrivial:
             self.distinct.add(hashlib.sha1(repr(key).encode()).hexdigest())
+
+
+# ----------------------------------------------------------------------------- explicit arguments must win
+def contrary_options(case):
+    """Global defaults that contradict every option the oracle passes explicitly for this case."""
+    cfg = case.get("cfg") if isinstance(case.get("cfg"), dict) else case
+    out = {}
+    alt = cfg.get("alternative", cfg.get("alt"))
+    if alt is not None:
+        out["alternative"] = {"two-sided": "less", "less": "greater", "greater": "two-sided"}[alt]
+    for k in ("equal_var", "use_t"):
+        if isinstance(cfg.get(k), bool):
+            out[k] = not cfg[k]
+    if cfg.get("confidence_level") is not None:
+        out["confidence_level"] = 0.5 if abs(float(Fraction(cfg["confidence_level"])) - 0.5) > 0.2 else 0.9
+    if cfg is case:   # power-analysis cases pass alpha / ratio / power explicitly as well
+        if isinstance(case.get("alpha"), (int, float)):
+            out["alpha"] = 0.2 if case["alpha"] < 0.1 else 0.01
+        if isinstance(case.get("ratio"), (int, float)):
+            out["ratio"] = 3 if case["ratio"] != 3 else 0.5
+        if isinstance(case.get("power"), (int, float)):
+            out["power"] = 0.6 if case["power"] > 0.7 else 0.95
+    return out
+
+
+def under_contrary_config(fn):
+    """Runs an oracle case, for half of the cases (chosen by a hash of the case, so replays agree), while the GLOBAL
+    configuration holds the opposite of every option the case passes explicitly (alternative, equal_var, use_t,
+    confidence_level). Explicit arguments win over global defaults, so the result must not change."""
+    import functools
+
+    @functools.wraps(fn)
+    def wrapper(case, *a, **kw):
+        key = hashlib.sha1(json.dumps(case, sort_keys=True, default=str).encode()).hexdigest()
+        opts = contrary_options(case) if int(key, 16) % 2 == 0 else {}
+        if not opts:
+            return fn(case, *a, **kw)
+        import tea_tasting as tt
+        with tt.config_context(**opts):
+            return fn(case, *a, **kw)
+    return wrapper
